@@ -69,6 +69,62 @@ def main(run):
         metas.append(desc)
         distinct.add((n, lo, hi, lam, theta_max))
         run.sample(desc)
+    # ---- construction from a data object: per-point wavelengths (time of flight), acceptance angle theta_max
+    from sasmodels.data import empty_sesans
+    from sasmodels import direct_model as dm
+    casesD, metasD = [], []
+    stats["data_objects"] = 0; stats["direct_model"] = 0
+    for t in range(6 if not thorough else 30):
+        n = rng.choice([1, 3, 8, 25])
+        lo = rng.choice([50.0, 200.0, 1000.0]); hi = lo * rng.choice([4.0, 30.0])
+        xi = np.array([lo]) if n == 1 else np.linspace(lo, hi, n)
+        lam = np.array([rng.uniform(2.0, 9.0) for _ in range(n)]) if t % 3 else np.full(n, rng.choice([2.0, 6.0]))
+        # an acceptance angle whose q cut 2 pi/max(lam) sin(theta_max) falls inside the calculated q range
+        # (for every wavelength of the set), except for one wide-open case
+        q_hi = 2 * math.pi / (xi[1] - xi[0]) if n > 1 else 20 * math.pi / xi[0]
+        theta_max = math.pi / 2 if t == 5 else math.asin(min(1.0, q_hi * rng.uniform(0.02, 0.3) * lam.min() / (2 * math.pi)))
+        data = empty_sesans(xi, wavelength=lam.copy(), zacceptance=(theta_max, "radians"))
+        tr = dm._make_sesans_transform(data)
+        q = np.asarray(tr.q_calc)
+        evals += 1; stats["data_objects"] += 1
+        desc = dict(kind="data-object", n_xi=int(n), xi_range=[float(xi[0]), float(xi[-1])], wavelength=list(map(float, lam)), theta_max=theta_max, n_q=len(q))
+        # the cut the property names: the acceptance 2 pi/lam sin(theta_max), one for the set = that of the longest wavelength
+        zacc = 2 * math.pi / lam.max() * math.sin(theta_max)
+        for factor in (0.97, 1.03, (lam.max() / lam.min()) * 0.97):
+            k = int(np.searchsorted(q, zacc * factor))
+            if 1 <= k < len(q):
+                Iq = np.zeros(len(q)); Iq[k] = 1.0
+                keep = (q[k] <= zacc) & (q[k] * lam / (2 * math.pi) <= 1)
+                want = (np.where(keep, j0(q[k] * xi), 0.0) - 1.0) * q[k] * (q[k] - q[k - 1]) / (2 * math.pi)
+                got = tr.apply(Iq)
+                stats["mask_cases"] += 1
+                if not np.allclose(got, want, rtol=1e-10, atol=1e-18):
+                    run.add(Finding("C19:data-mask", "SESANS data with wavelengths %.3g..%.3g A and acceptance %.4g rad: a unit intensity at q=%.6g (the acceptance of the set is q <= %.6g) gives %r, expected %r" % (
+                        lam.min(), lam.max(), theta_max, q[k], zacc, got[:3], want[:3]), dict(desc, q=float(q[k]), zaccept_expected=zacc)))
+        S = sorted(rng.sample(range(1, len(q)), min(len(q) - 1, 120)))
+        Iq = np.zeros(len(q))
+        for k in S:
+            Iq[k] = rng.uniform(0.0, 2.0)
+        got = tr.apply(Iq)
+        nx = min(len(xi), 5)
+        J = j0(np.outer(q[S], xi[:nx]))
+        scale = np.array([np.sum((np.abs(J[:, j]) + 1) * Iq[S] * q[S] * (q[S] - q[np.array(S) - 1])) / (2 * math.pi) for j in range(nx)])
+        pts = coq_list(["(%s, %s, %s, %s)" % (fhex(q[k] - q[k - 1]), fhex(q[k]), fhex(Iq[k]), flist(J[i])) for i, k in enumerate(S)], "(float * float * float * list float)")
+        casesD.append("(MkCaseD %s %s %s %s %s)" % (pts, flist(lam), fhex(math.sin(theta_max)), flist(scale), flist(got[:nx])))
+        metasD.append(desc)
+        distinct.add(("data", n, lo, hi, theta_max, t % 3 != 0))
+        # DirectModel on the data object: G(xi) of the model's I(q_calc), background forced to zero
+        if t < (2 if not thorough else 8):
+            model = sas.load("sphere")
+            calc = dm.DirectModel(data, model)
+            pars = dict(radius=rng.uniform(100, 2000), sld=3.0, sld_solvent=1.0, scale=rng.uniform(0.1, 2), background=rng.uniform(0.1, 5))
+            got = calc(**pars)
+            kern = model.make_kernel([q])
+            ref = tr.apply(dm.call_kernel(kern, dict(pars, background=0.0)))
+            evals += 1; stats["direct_model"] += 1
+            if not np.allclose(got, ref, rtol=1e-12, atol=0):
+                run.add(Finding("C19:direct-model", "DirectModel on SESANS data differs from the transform of the background-free I(q_calc) (max rel %.3g)" % (
+                    np.abs(got / ref - 1).max()), dict(desc, pars=pars)))
     # ---- Gaussian Hankel pairs: I = exp(-q^2 s^2/2)  ->  (exp(-xi^2/2s^2) - 1)/(2 pi s^2)
     for t in range(4 if not thorough else 20):
         xi = np.logspace(2, 4, 40) if t % 2 else np.linspace(100, 5000, 50)
@@ -109,6 +165,16 @@ def main(run):
             traces += min(4, len(cases) - si * 4)
             for idx in vals[0]:
                 run.add(Finding("C19:corr", "apply differs from the Coq model on a sparse intensity for %s" % metas[si * 4 + idx], metas[si * 4 + idx]))
+    if casesD and not run.proof_broken():
+        shards = ["From Coq Require Import List PrimFloat.\nImport ListNotations.\nFrom SM Require Import Base.Num C19.Model C19.Exec.\n"
+                  "Definition cases : list CaseD := [\n%s\n].\nEval vm_compute in (check_casesD %s cases).\n" % (";\n".join(casesD[i:i + 4]), fhex(1e-11)) for i in range(0, len(casesD), 4)]
+        for si, (rc, vals, err) in enumerate(common.run_coq_shards(shards, run.scratch.sub("coqd"), prefix="c19d", jobs=8)):
+            if rc != 0 or not vals:
+                run.add(Finding("corr:C19:coq", "correspondence shard failed: %s" % err[-300:], {"correspondence": "C19.Exec.check_casesD", "stderr": err[-1500:]}, no_input=True))
+                continue
+            traces += min(4, len(casesD) - si * 4)
+            for idx in vals[0]:
+                run.add(Finding("C19:corr-data", "the transform built from a data object differs from the Coq model (per-point wavelengths, zaccept = 2 pi/max(lam) sin(theta_max)) for %s" % metasD[si * 4 + idx], metasD[si * 4 + idx]))
     stats["grid_sizes"] = dict(min=min(stats["grid_sizes"]), max=max(stats["grid_sizes"]))
     run.coverage.update(evaluations=evals, distinct_nontrivial=len(distinct), traces_validated_against_impl=traces, input_distribution=stats)
     run.assumptions += ["J0 is a leaf (scipy.special.j0); the q grid is taken from the implementation (its positivity/monotonicity is checked, and proved for exp of an arithmetic progression)",
